@@ -188,7 +188,7 @@ def run(ctx):
     # ------------------------------------------------------------------ 1. the real client's keys
     kops = ["k keys %s" % p for p in PREFS] + ["k keys bogus"] + ["k genkey %s %d" % g for g in GENKEYS]
     for p in PREFS:      # the real client's own installation path, three consecutive runs per preference
-        kops += ["k install %s noagent" % p, "k install %s agent" % p]
+        kops += ["k install %s noagent" % p, "k install %s agent" % p, "k install %s planted" % p]
     kops.append("k genkeypair")
     if not q:
         kops += ["k genkey rsa 4096", "k genkey rsa 3072"]
@@ -198,6 +198,7 @@ def run(ctx):
         return c.finish(ctx)
     kimpl = strip(kraw)
     mops, cmp_impl = [], []
+    planted_j = []
     keys = {}       # name -> dict(desc, ssh, pkix)
     offers = []     # (pref, cert, mandatory, keyname, field)
     for o, l, r in zip(kops, kimpl, kraw):
@@ -219,7 +220,11 @@ def run(ctx):
             if l.startswith("desc="):
                 keys["gen.%s%s" % (f[2], f[3])] = {"desc": d["desc"], "ssh": c.unhexs(d.get("ssh", "-")), "pkix": c.unhexs(d.get("pkix", "-"))}
         elif f[1] == "install":
-            mops.append("install %s %s 1 ssh" % (f[2], f[3]))
+            mops.append("install %s %s 1 ssh" % (f[2], "noagent" if f[3] == "planted" else f[3]))
+            if f[3] == "planted":
+                kvs = kv(l)
+                planted_j.append(("planted %s %s %s %s" % (kvs.get("captured", "?"), kvs.get("foreignconns", "?"),
+                                                           kvs.get("privfiles0600", "?"), kvs.get("privfilesother", "?")), o, l))
             cmp_impl.append(" ".join(t for t in l.split() if t.startswith(("files=", "agent="))))
             if not l.startswith("ok") or "privfilesother=0" not in l:
                 pending_violation(ctx, "install:%s:%s" % (f[2], f[3]), "insertSSHCertIntoAgentORWriteToFilesystem: %s" % l,
@@ -227,6 +232,13 @@ def run(ctx):
         elif f[1] == "genkeypair":
             if "files=id.pub:644,id:600" not in l or "privfilesother=0" not in l:
                 pending_violation(ctx, "genkeypair-mode", "util.GenKeyPair left %s" % l, {"stream": "k", "ops": [o], "impl": l})
+    for (j, o, l), v in zip(planted_j, c.run_driver(ctx, "judge", [x[0] for x in planted_j]) if planted_j else []):
+        cov["planted_listener_runs"] = cov.get("planted_listener_runs", 0) + 1
+        if v != "ok":
+            pending_violation(ctx, "key-to-foreign-socket",
+                              "no agent configured (SSH_AUTH_SOCK, XDG_RUNTIME_DIR unset), other processes listening on conventional agent "
+                              "socket names under $TMPDIR: installing the %s SSH key: %s (%s)" % (o.split()[2], v, l),
+                              {"stream": "k", "ops": [o], "impl": l, "judge": v})
     # the model's file lists are compared as sets
     model = c.run_driver(ctx, "model", mops)
 
@@ -253,6 +265,9 @@ def run(ctx):
         for ca in (1, 0):
             sops.append("s certgen %s %d %s" % (cert, ca, c.hexs(keyfile)))
             smeta.append(("offer", pref, cert, mand, ca, kn, keyfile))
+            # … and on a server configured through a configuration file and unsealed like the daemon
+            sops.append("s cfgcertgen %s %d %s" % (cert, ca, c.hexs(keyfile)))
+            smeta.append(("offer", pref, cert, mand, ca, kn, keyfile))
     for kn, k in sorted(keys.items()):
         for cert in ("ssh", "x509", "x509-kubernetes", "bogus"):
             keyfile = (k["ssh"] if cert == "ssh" else k["pkix"]) or ""
@@ -273,7 +288,7 @@ def run(ctx):
     mops, cmp_impl, jops, jmeta = [], [], [], []
     for o, l, m in zip(sops, simpl, smeta):
         f = o.split()
-        if f[1] == "certgen":
+        if f[1] in ("certgen", "cfgcertgen"):
             k = keys[m[5]]
             parsed = k["desc"] if m[6] else "none"
             if f[2] == "ssh" and not k["ssh"]:
@@ -301,10 +316,13 @@ def run(ctx):
     for (o, m, l), v in zip(jmeta, verdicts):
         cov["offers_judged"] += 1
         if v != "ok":
-            pending_violation(ctx, "refused:%s:%s" % (m[1], m[2]),
-                              "key preference %s: the server answered %s to the client's own %s key (%s) for a %s certificate%s: %s" % (
-                                  m[1], l, "mandatory" if m[3] else "optional", keys[m[5]]["desc"], m[2],
-                                  " with an Ed25519 CA configured" if m[4] else "", v),
+            loaded = o.split()[1] == "cfgcertgen"
+            pending_violation(ctx, "refused:%s:%s%s" % (m[1], m[2], ":loaded-config" if loaded else ""),
+                              "key preference %s: the server%s answered %s to the client's own %s key (%s) for a %s certificate%s: %s" % (
+                                  m[1], " (configuration file read by loadVerifyConfigFile, unsealed by unsealCA)" if loaded else "",
+                                  l, "mandatory" if m[3] else "optional", keys[m[5]]["desc"], m[2],
+                                  (" with an Ed25519 CA configured (base.ed25519_ca_keyfilename)" if loaded else
+                                   " with an Ed25519 CA configured") if m[4] else "", v),
                               {"stream": "s", "ops": [o], "pref": m[1], "cert": m[2], "keyfile": m[6], "status": l, "judge": v})
     # ------------------------------------------------------------------ 3. agent upsert
     client_types = sorted(set("%s:%d" % (g["kind"], g["bits"]) for g in facts["c19"]["key_gen"]))
